@@ -196,11 +196,11 @@ namespace ip {
 	void udp::socket::abort_send_handlers()
 	{
 		if (m_send_handler)
-			post(m_io_service, make_malloc(std::bind(std::ref(m_send_handler)
+			post(m_io_service, make_malloc(std::bind(std::move(m_send_handler)
 				, boost::system::error_code(error::operation_aborted), std::size_t(0))));
 
 		if (m_wait_send_handler)
-			post(m_io_service, make_malloc(std::bind(std::ref(m_wait_send_handler)
+			post(m_io_service, make_malloc(std::bind(std::move(m_wait_send_handler)
 				, boost::system::error_code(error::operation_aborted))));
 
 		m_send_timer.cancel();
@@ -236,11 +236,23 @@ namespace ip {
 			boost::system::error_code no_error;
 			if (m_next_send - now > m_send_queue_time / 2)
 			{
-				// our send queue is too large. Defer
-				m_recv_timer.expires_at(m_next_send + m_send_queue_time / 2);
+				// our send queue is too large. Defer. The wait belongs to the
+				// send side (a receive must not complete it), and the socket is
+				// reached through its forwarder, so that nothing is touched once
+				// the socket is closed or destroyed
+				m_send_timer.expires_at(m_next_send + m_send_queue_time / 2);
 
 				m_wait_send_handler = std::move(handler);
-				m_recv_timer.async_wait(make_malloc(std::bind(std::ref(m_wait_send_handler), no_error)));
+				std::shared_ptr<aux::sink_forwarder> fwd = m_forwarder;
+				m_send_timer.async_wait(aux::make_malloc([fwd](boost::system::error_code const& e)
+				{
+					if (e || !fwd) return;
+					auto* s = static_cast<udp::socket*>(fwd->dst());
+					if (s == nullptr || !s->m_wait_send_handler) return;
+					auto h = std::move(s->m_wait_send_handler);
+					s->m_wait_send_handler = nullptr;
+					h(boost::system::error_code());
+				}));
 				return;
 			}
 
